@@ -356,8 +356,8 @@ class Binder:
 
 _LOG = []          # near-miss descriptions of failed comparisons since the last decision
 NEAR_MIN_SIZE = 7  # patterns smaller than this never count as near misses
-NEAR_RATIO = 0.7
-NEAR_MAX_DIFFS = 3
+NEAR_RATIO = 0.75
+NEAR_MAX_DIFFS = 2
 
 
 def take_log():
@@ -417,6 +417,11 @@ def _align(m, p, n, diffs):
     if m.node(p, n):
         return _size(p)
     m.fwd, m.rev = saved
+    if isinstance(p, ast.Call):
+        # a call of something else is another construct, not a variant of the required one
+        pf, nf = _callee(p.func), _callee(n.func)
+        if pf is not None and nf is not None and pf != nf:
+            raise _Far()
     if isinstance(p, ast.Name):
         diffs.append((p.id, n.id))
         return 0
@@ -432,6 +437,21 @@ def _align(m, p, n, diffs):
             continue
         k += _align(m, a, b, diffs)
     return k
+
+
+class _Far(Exception):
+    pass
+
+
+def _callee(f):
+    parts = []
+    while isinstance(f, ast.Attribute):
+        parts.append(f.attr)
+        f = f.value
+    if isinstance(f, ast.Name):
+        parts.append(f.id)
+        return ".".join(reversed(parts))
+    return None
 
 
 def _quick_same(m, a, b):
@@ -479,7 +499,10 @@ def near(node, pattern, bind=None):
             if d:
                 return f"the statement is now conditional on `{_txt(inner.test)}` and differs: {d}"
     diffs = []
-    got = _align(m, p, node, diffs)
+    try:
+        got = _align(m, p, node, diffs)
+    except _Far:
+        return None
     if not diffs or len(diffs) > NEAR_MAX_DIFFS or got < NEAR_RATIO * total:
         return None
     return "; ".join(f"`{b}` where `{a}` is required" for a, b in diffs)
